@@ -273,9 +273,31 @@ def _globals_rule(repo, rep):
                   construct="macro-merge-overwrites-shadow",
                   where=L.where(f), detail="econtext.update(rcontext) "
                   "re-applies every global" if bare else "")
+    _filler_merge(repo, rep)
 
 
-def merge_after_macro(repo, name):
+def _filler_merge(repo, rep):
+    # a slot filler runs on a copy of the macro's scope like a macro does
+    # on its caller's: a global it defines must reach the rest of the macro
+    # body the same way ("visible for the rest of the rendering")
+    mo = merge_after_macro(repo, "visit_DefineSlot", FILLER_CALL)
+    f = mo["func"]
+    rep.check(mo["call"] is not None and mo["upd"] is not None and
+              mo["upd"] > mo["call"] and mo["top"] and mo["filter_ok"]
+              and not mo["bare"], "R05.3", f.qualname,
+              "after a slot filler returns, the globals it (re)defined are "
+              "merged into the macro's scope -- those only, in the branch "
+              "that called it", construct="filler-merge-out",
+              where=L.where(f), detail=mo["detail"] or
+              "call=%s merge=%s" % (mo["call"], mo["upd"]))
+
+
+MACRO_CALL = ("_F(__stream, econtext.copy(), rcontext, __i18n_domain, "
+              "__i18n_context, target_language)")
+FILLER_CALL = "_F(__stream, econtext.copy(), rcontext)"
+
+
+def merge_after_macro(repo, name, call_pattern=MACRO_CALL):
     """How a macro-use emitter hands the macro's global definitions to the
     caller's scope.  -> dict(call, upd, bare, top, filter_ok, detail)"""
     f = repo.func(COMP + name)
@@ -287,9 +309,7 @@ def merge_after_macro(repo, name):
     for i, (it, conds, path) in enumerate(ln.rows):
         if not isinstance(it, A.Frag):
             continue
-        if L.frag_find(it, "_F(__stream, econtext.copy(), rcontext, "
-                           "__i18n_domain, __i18n_context, target_language)",
-                       "expr"):
+        if L.frag_find(it, call_pattern, "expr"):
             out["call"] = i
         for node, b in L.frag_find(it, "_S = rcontext.copy()"):
             if isinstance(b["_S"], ast.Name):
@@ -300,10 +320,14 @@ def merge_after_macro(repo, name):
             if "rcontext" not in src(arg):
                 continue
             out["upd"] = i
-            out["top"] = not conds and not any(
+            ci = out["call"]
+            same = ci is not None and ln.rows[ci][1] == conds and [
+                (id(n), fld) for n, fld in ln.rows[ci][2]] == [
+                (id(n), fld) for n, fld in path]
+            out["top"] = (same or (not conds and not any(
                 isinstance(n, A.Py) and n.kind in ("If", "While", "Try",
                                                    "ExceptHandler")
-                for n, fld in path) and any(
+                for n, fld in path))) and any(
                     isinstance(st, ast.Expr) and st.value is node
                     for st in it.tree.body)
             if isinstance(arg, ast.Name):
